@@ -98,6 +98,20 @@ Definition exit_hijack (s : st) : option (st * word) :=
       Some (mkSt (mem s1) rest, fip f)
   end.
 
+(* __mcount_exit / __plthook_exit when tracing is being finished (mcount_should_stop(): a `finish` trigger
+   or signal fired elsewhere): after the usual bookkeeping mtd_dtor() restores every return slot
+   (mcount_rstack_restore) and frees the shadow stack; the address handed back is RE-READ from the slot,
+   because the saved one is a trampoline when the function was tail-called *)
+Definition exit_stop (s : st) : option (st * word) :=
+  match rs s with
+  | [] => None
+  | f :: _ =>
+      let m1 := if frec f then rehook_all (rs s) (mem s) else mem s in
+      let s1 := auto_rehook (mkSt m1 (rs s)) in
+      let m2 := restore_all (rs s) (mem s1) in
+      Some (mkSt m2 [], m2 (floc f))
+  end.
+
 (* __cygprof_exit: an exit that does not meet a cygprof frame is dropped *)
 Definition exit_cyg (s : st) : st :=
   match rs s with
@@ -134,7 +148,8 @@ Inductive op :=
 | OPush (l a : nat)          (* a `call` instruction stores return address a into slot l *)
 | OEnter (h : hook) (l : nat) (* entry hook of a function whose return-address slot is l *)
 | OCygExit                   (* __cyg_profile_func_exit *)
-| ORet (l : nat).            (* the function returns through slot l *)
+| ORet (l : nat)             (* the function returns through slot l *)
+| ORetStop (l : nat).        (* the same, after tracing was told to finish: the first exit hook tears down *)
 
 Inductive out := UNone | URet (exits : nat) (target : word) | UDead.
 
@@ -150,6 +165,18 @@ Definition run_op (s : st) (o : op) : st * out :=
               | Some (s', n, w) => (s', URet n w)
               | None => (s, UDead)
               end
+  | ORetStop l =>
+      match mem s l with
+      | Real a => (s, URet 0 (Real a))
+      | Tramp _ =>
+          match exit_stop s with
+          | None => (s, UDead)
+          | Some (s', w) =>
+              (* the trampoline stores w into the slot and returns through it; the thread is dead for the
+                 tracer, so a trampoline address here can never be resolved *)
+              (mkSt (upd (mem s') l w) (rs s'), URet 1 w)
+          end
+      end
   end.
 
 Fixpoint run_ops (s : st) (ops : list op) : st * list out :=
